@@ -535,7 +535,7 @@ pub fn run(ctx: &Ctx) -> (Report, Meta) {
     rep.exhaustive = Some(true);
 
     // ---------- part 2: random real / complex ----------
-    let nrand = ctx.size(150_000, 3_000_000);
+    let nrand = ctx.size(600_000, 30_000_000);
     let rep2 = par_for(nrand, "C16", |i, rep| {
         let case_id = format!("rand/{}", i);
         if !ctx.want(&case_id) {
@@ -630,7 +630,7 @@ pub fn run(ctx: &Ctx) -> (Report, Meta) {
     rep.merge(rep2);
 
     // ---------- part 3: singular constructions and argument errors ----------
-    let nsing = ctx.size(20_000, 300_000);
+    let nsing = ctx.size(80_000, 3_000_000);
     let rep3 = par_for(nsing, "C16", |i, rep| {
         let case_id = format!("sing/{}", i);
         if !ctx.want(&case_id) {
